@@ -654,6 +654,17 @@ impl RegexInternPool {
     }
 }
 
+#[cfg(feature = "verif")]
+impl RegexInternPool {
+    pub fn verif_lookup(&self, id: RegexId) -> &Regex {
+        self.lookup(id)
+    }
+
+    pub fn verif_len(&self) -> usize {
+        self.store.len()
+    }
+}
+
 #[derive(Debug, Clone)]
 pub struct Regex {
     pub root_id: RegexNodeId,
